@@ -41,9 +41,11 @@ def check(run):
     n = 60000 if thorough else 6000
     for cfg in cfgs:
         impl = vlib.need_harness("text_h", cfg)
+        gen_json.FLOAT_ONLY = cfg[4] == "0"
         docs = run_valid(run, model, impl, cfg, n if cfg == "10001" else n // 4, rnd, oracle_fail, all_mism)
         run.sample(dict(text=docs[0][1].decode("latin1"), cfg=cfg))
         run.sample(dict(text=docs[1][1].decode("latin1"), cfg=cfg))
+    gen_json.FLOAT_ONLY = False
     run.cov["rule"] = ("grammar-directed random RFC 8259 texts (random whitespace, escape spelling incl. \\uXXXX and surrogate pairs, "
                        "number spellings aimed at 2^63/2^64, FLT_MAX, exponent limits; duplicate, empty, NUL-containing and prefix-related keys); "
                        "each is run through the extracted model and the rebuilt library (dirty destination) and the library's document is "
